@@ -66,14 +66,33 @@ let apply_override id gg =
      | Some gg' -> (gg', false)
      | None -> (gg, true))
 
+(* The options of a call are assembled the way the harness assembles its `StreamOpts` (rt_exec.rs
+   make_opts): one of six chains of builder calls, selected by the case id; the model folds the chain
+   (Opts.opts_build, extracted). *)
+let cur_variant = ref 0
+
+let opts_of rev strat incl =
+  let r = if rev then [ORev] else [] in
+  let s = (match strat with SNonInt -> [] | _ -> [OState strat]) in
+  let i b = [OIncl b] in
+  let calls = match !cur_variant with
+    | 0 -> r @ s @ i incl
+    | 1 -> i incl @ s @ r
+    | 2 -> s @ r @ i incl
+    | 3 -> i incl @ r @ s
+    | 4 -> r @ r @ i (not incl) @ i incl @ s
+    | _ -> i incl @ s @ r @ r @ i incl in
+  opts_build calls
+
 let parse_cfg gg tokens =
   let api = match kv tokens "api" "foreach" with
     | "fold" -> AFold | "tryfold" -> ATryFold | "foreach" -> AForEach | "tryforeach" -> ATryForEach
     | a -> failwith ("bad api " ^ a) in
   let b k = kv tokens k "0" = "1" in
-  mk_cfg gg (kv tokens "ord" "f" = "r") api (b "mut") (b "ctl")
+  mk_cfg_opts gg (opts_of (kv tokens "ord" "f" = "r") (parse_strat (kv tokens "strat" "non")) (kv tokens "incl" "1" = "1"))
+    api (b "mut") (b "ctl")
     (nat_of_int (int_of_string (kv tokens "lim" "0")))
-    (parse_strat (kv tokens "strat" "non")) (kv tokens "incl" "1" = "1") (parse_imm (kv tokens "imm" "-")) true
+    (parse_imm (kv tokens "imm" "-")) true
 
 let str_trace t =
   if t = [] then "-" else
@@ -132,7 +151,7 @@ let call_finish r =
   Printf.printf "OBS %s %sO %s\n" r.id r.pre (if is_none r.st.panic then str_outcome r.st.result else "-")
 
 let parse_scfg gg tokens =
-  mk_scfg gg (kv tokens "ord" "f" = "r") (parse_strat (kv tokens "strat" "non")) (kv tokens "int" "0" = "1")
+  mk_scfg_opts gg (opts_of (kv tokens "ord" "f" = "r") (parse_strat (kv tokens "strat" "non")) true) (kv tokens "int" "0" = "1")
     (try Sys.getenv "FG_STREAM_DRAIN" <> "0" with Not_found -> true)
 
 (* one stream run, stepped event by event *)
@@ -183,6 +202,7 @@ let build_graph id ops_s =
 
 let handle kind id _hd rest =
   let rest = List.map String.trim rest in
+  cur_variant := (try (int_of_string id) mod 6 with _ -> 0);
   match kind, rest with
   | "X", [ops; cfgs; evs] ->
     let gg = build_graph id ops in
